@@ -67,7 +67,12 @@ def main():
                          'the rules of %s could not analyse this tree (%s: %s at %s); the instances recorded before that point stand, '
                          'the remaining ones were not evaluated' % (a.prop, type(e).__name__, str(e)[:200], at))
         import ownership
-        ownership.check_uncovered(run, a.prop, loader)
+        # on every build configuration the property's rules looked at (std-debug always; the release and no_std builds have
+        # code of their own -- `cfg!(debug_assertions)` branches, the no_std math fallbacks)
+        cov_cfgs = ['std-debug'] + [c for c in ('std-release', 'nostd') if loader.cache.get(c) is not None]
+        if a.prop in ownership.NOSTD_CODE and 'nostd' not in cov_cfgs:
+            cov_cfgs.append('nostd')        # these properties own math fallbacks that exist in the no_std build only
+        ownership.check_uncovered(run, a.prop, loader, configs=tuple(cov_cfgs))
         import deps
         deps.apply(run, a.prop, tier, loader)
         import equiv
